@@ -79,6 +79,20 @@ def runIterScript (t : Dense) (script : String) : Res (String × List Int) := do
       | (it', some i) => pure (it', s!"{i}" :: out, offs)
       | (it', none) => pure (it', "E" :: out, offs)
     | 'N' => pure (nexts (bound + 3) it 2 out offs)
+    -- `Start()`: Reset, then Next
+    | 's' => do
+      let it ← it.reset
+      match it.next with
+      | (it', some i) => pure (it', s!"s{i}" :: out, offs)
+      | (it', none) => pure (it', "sE" :: out, offs)
+    -- `Chan()`: the goroutine sends every index until Next fails, then closes the channel
+    | 'C' =>
+      let (it', o, _) := nexts (bound + 3) it 0 [] []
+      pure (it', s!"C{String.intercalate "," (o.reverse.map (fun x => (x.splitOn "@").head!))}" :: out, offs)
+    -- `Slice(nil)`: all remaining indices (returned together with the no-op error of the last `Next`: `!`)
+    | 'L' =>
+      let (it', o, _) := nexts (bound + 3) it 0 [] []
+      pure (it', s!"L{String.intercalate "," (o.reverse.map (fun x => (x.splitOn "@").head!))}!" :: out, offs)
     | 'r' => pure ((← it.setReverse), out, offs)
     | 'f' => pure ((← it.setForward), out, offs)
     | 'x' => pure ((← it.reset), out, offs)
